@@ -160,6 +160,10 @@ func (c *conn) handleSubscribe(in *inEnvelope) error {
 
 	initial := true
 	c.subscriptionLogger.Subscribe(c.ctx, id, tags)
+	// self is the rerunner created below; it is set while c.mu is still held and
+	// read by closeSubscriptionIfCurrent under c.mu.
+	var self *reactive.Rerunner
+	defer func() { self = c.subscriptions[id] }()
 	c.subscriptions[id] = reactive.NewRerunner(c.ctx, func(ctx context.Context) (interface{}, error) {
 		ctx = c.makeCtx(ctx)
 		ctx = batch.WithBatching(ctx)
@@ -194,7 +198,7 @@ func (c *conn) handleSubscribe(in *inEnvelope) error {
 
 		if err != nil {
 			if ErrorCause(err) == context.Canceled {
-				go c.closeSubscription(id)
+				go c.closeSubscriptionIfCurrent(id, &self)
 				return nil, err
 			}
 
@@ -220,7 +224,7 @@ func (c *conn) handleSubscribe(in *inEnvelope) error {
 				Message:  SanitizeError(err),
 				Metadata: output.Metadata,
 			})
-			go c.closeSubscription(id)
+			go c.closeSubscriptionIfCurrent(id, &self)
 
 			if _, ok := err.(SanitizedError); !ok {
 				c.logger.Error(ctx, err, tags)
@@ -290,6 +294,9 @@ func (c *conn) handleMutate(in *inEnvelope) error {
 
 	initial := true
 	e := c.executor
+	// See handleSubscribe.
+	var self *reactive.Rerunner
+	defer func() { self = c.subscriptions[id] }()
 	c.subscriptions[id] = reactive.NewRerunner(c.ctx, func(ctx context.Context) (interface{}, error) {
 		// Serialize all mutates for a given connection.
 		c.mutateMu.Lock()
@@ -333,7 +340,7 @@ func (c *conn) handleMutate(in *inEnvelope) error {
 				Metadata: output.Metadata,
 			})
 
-			go c.closeSubscription(id)
+			go c.closeSubscriptionIfCurrent(id, &self)
 
 			if ErrorCause(err) == context.Canceled {
 				return nil, err
@@ -355,7 +362,7 @@ func (c *conn) handleMutate(in *inEnvelope) error {
 		go c.rerunSubscriptionsImmediately()
 
 		initial = false
-		go c.closeSubscription(id)
+		go c.closeSubscriptionIfCurrent(id, &self)
 		return nil, errors.New("stop")
 	}, c.minRerunIntervalFunc(c.ctx, query), c.alwaysSpawnGoroutineFunc(c.ctx, query))
 
@@ -376,6 +383,20 @@ func (c *conn) closeSubscription(id string) {
 	defer c.mu.Unlock()
 
 	if runner, ok := c.subscriptions[id]; ok {
+		runner.Stop()
+		delete(c.subscriptions, id)
+		c.subscriptionLogger.Unsubscribe(c.ctx, id)
+	}
+}
+
+// closeSubscriptionIfCurrent is closeSubscription for the asynchronous "this
+// computation is over" path: by the time it runs, the id may already have been
+// unsubscribed and reused by a newer subscription, which must not be closed.
+func (c *conn) closeSubscriptionIfCurrent(id string, self **reactive.Rerunner) {
+	c.mu.Lock()
+	defer c.mu.Unlock()
+
+	if runner, ok := c.subscriptions[id]; ok && runner == *self {
 		runner.Stop()
 		delete(c.subscriptions, id)
 		c.subscriptionLogger.Unsubscribe(c.ctx, id)
